@@ -770,6 +770,76 @@ def check_hier(case):
     return check_hloc(case)
 
 
+# ---------------------------------------------------------------------------------------------
+# lists of coarser-resolution datetimes on long datetime-typed axes
+
+@st.composite
+def coarse_list_cases(draw):
+    """A datetime-typed axis of 24..80 labels spread over many periods and a key listing most (or a few) of those periods in the
+    coarser unit: every label inside a listed period is selected, no label of a period that is not listed."""
+    cls = draw(st.sampled_from(['IndexDate', 'IndexDate', 'IndexYearMonth']))
+    target = draw(st.sampled_from(['series', 'frame_cols', 'index', 'series_getitem']))
+    form = draw(st.sampled_from(['array', 'list', 'strs']))
+    mode = draw(st.sampled_from(['most', 'most', 'few']))
+    n = draw(st.sampled_from([60, 40, 24, 80]))
+    stride = draw(st.sampled_from([15, 10, 20, 12])) if cls == 'IndexDate' else draw(st.sampled_from([4, 3, 5]))
+    start = draw(st.integers(0, 40))
+    dropped = draw(st.lists(st.integers(0, 200), min_size=1, max_size=4)) if mode == 'most' else draw(st.lists(st.integers(0, 200), min_size=1, max_size=5))
+    absent = draw(st.integers(0, 2))     # periods before the first label, listed although nothing lies inside them
+    perm = draw(st.booleans())
+    return {'cls': cls, 'target': target, 'form': form, 'mode': mode, 'n': n, 'stride': stride, 'start': start, 'dropped': dropped, 'absent': absent, 'perm': perm}
+
+
+def check_coarse_lists(case):
+    unit, cunit = ('D', 'M') if case['cls'] == 'IndexDate' else ('M', 'Y')
+    base = np.datetime64('2001-01-01', unit) + np.timedelta64(case['start'], unit)
+    labels = base + (np.arange(case['n']) * case['stride']).astype('m8[%s]' % unit)
+    periods = labels.astype('M8[%s]' % cunit)
+    present = list(dict.fromkeys(periods.tolist()))
+    present = [np.datetime64(x, cunit) for x in present]
+    if case['mode'] == 'most':
+        drop = {d % len(present) for d in case['dropped']}
+        chosen = [x for q, x in enumerate(present) if q not in drop]
+    else:
+        chosen = [present[d % len(present)] for d in dict.fromkeys(case['dropped'])]
+        chosen = list(dict.fromkeys(chosen))
+    chosen = [present[0] - np.timedelta64(q + 1, cunit) for q in range(case['absent'])] + chosen
+    if case['perm']:
+        chosen = chosen[1::2] + chosen[0::2]
+    if not chosen:
+        raise Discard('empty key')
+    key = {'array': lambda: np.array(chosen, dtype='M8[%s]' % cunit), 'list': lambda: list(chosen), 'strs': lambda: [str(x) for x in chosen]}[case['form']]()
+    ix = getattr(sf, case['cls'])(labels)
+    want = [q for q in range(case['n']) if any(periods[q] == c for c in chosen)]
+    what = '%s of %d labels, key of %d %s periods as %s (%s)' % (case['cls'], case['n'], len(chosen), cunit, case['form'], case['target'])
+    if case['target'] == 'series':
+        r = lib(lambda: sf.Series(np.arange(case['n']), index=ix).loc[key])
+    elif case['target'] == 'series_getitem':
+        r = lib(lambda: sf.Series(np.arange(case['n']), index=ix)[key])
+    elif case['target'] == 'frame_cols':
+        r = lib(lambda: sf.Frame(np.arange(case['n'] * 2).reshape(2, case['n']), columns=ix).loc[:, key].iloc[0] // 1)
+    else:
+        r = lib(lambda: sf.Series(np.arange(case['n']), index=ix).iloc[ix.loc_to_iloc(key)])
+    if isinstance(r, Raised):
+        raise Failure('raised:%s' % r.cls, '%s raised %r' % (what, r.exc), r.where)
+    if not isinstance(r, sf.Series):
+        raise Failure('dimension', '%s returned %s' % (what, type(r).__name__))
+    got_pos = [int(v) for v in arr_list(r.values)]
+    got_labels = [np.datetime64(x, unit) for x in arr_list(r.index.values)]
+    if any(labels[p] != l for p, l in zip(got_pos, got_labels)) or len(got_pos) != len(got_labels):
+        raise Failure('pairing', '%s: a value is no longer paired with its label' % what)
+    if sorted(got_pos) != want:
+        extra = [str(labels[p]) for p in got_pos if p not in want]
+        lost = [str(labels[p]) for p in want if p not in got_pos]
+        raise Failure('positions', '%s: %d labels selected, %d expected; outside the listed periods: %s; missing: %s' % (what, len(got_pos), len(want), short(extra, 120), short(lost, 120)))
+    if not case['perm'] and got_pos != want:
+        raise Failure('order', '%s: positions %s expected %s' % (what, short(got_pos), short(want)))
+    long_key = len(chosen) >= 10 * case['n'] ** 0.145
+    return {'nt': len(want) < case['n'] and len(chosen) >= 2,
+            'cls': ['coarse:' + case['cls'], 'coarse-form:' + case['form'], 'coarse-target:' + case['target'], 'coarse-key:' + ('long' if long_key else 'short'),
+                    'coarse-absent:%d' % case['absent']]}
+
+
 SUBS = [
     Sub('hier_selection', _hier_cases(), check_hier, quick=2400, thorough=16000,
         rule='Series / Frame selection on a hierarchical axis (HLoc with labels, lists, slices incl. stepped and descending, masks; tuples; ILoc) vs per-level matcher'),
@@ -781,6 +851,8 @@ SUBS = [
         rule='Frame.bloc vs {(row,col): value} mapping'),
     Sub('go_selection', go_cases(), check_go, quick=6000, thorough=32000,
         rule='selection on grow-only frames / indices straight after growth (16 key forms incl. partial dates) vs the same selection on a static twin'),
+    Sub('coarse_lists', coarse_list_cases(), check_coarse_lists, quick=1600, thorough=12000,
+        rule='lists / arrays of coarser-resolution datetimes (months on a daily axis, years on a monthly one; 2..40 periods, most or few of those present) on axes of 24..80 labels select exactly the labels inside the listed periods'),
     Sub('slices_exhaustive', None, check_slice, quick=0, thorough=0, enum=enum_slices,
         rule='complete enumeration of positional slices on small axes (exhaustive sub-domain)'),
 ]
